@@ -29,6 +29,8 @@ type scOpt struct {
 	raw     bool // do not converge first (first deployment scenarios)
 	mons    []func(*w.MonCtx)
 	noFreq0 bool // keep the default reconcileFrequency (timed scenarios)
+	// prepare: a longer directed history (user events, fair rounds) leading to the start state; not charged to the budget
+	prepare func(t *testing.T, sc *w.Scenario, st *w.State) *w.State
 	// nodeAnnots: annotations per node name (resource override annotations)
 	nodeAnnots map[string]map[string]string
 }
@@ -64,6 +66,9 @@ func mkScenario(t *testing.T, o scOpt) *w.Scenario {
 			panic(fmt.Sprintf("scenario %s: first event %s failed: %v", o.name, ev, out.CmdErr))
 		}
 		st = out.Next
+	}
+	if o.prepare != nil {
+		st = o.prepare(t, sc, st)
 	}
 	st.Budget = o.budget
 	sc.Init = []*w.State{st}
